@@ -337,7 +337,10 @@ def run_crc(case):
     elif k == "crc_random":
         rnd = random.Random(case["seed"])
         for i in range(case["n"]):
-            ln = rnd.choice([4, 9, 17, 64, 255, 256, 257, 1000, 4096, 65535, 70000]) \
+            ln = rnd.choice([4, 9, 17, 64, 255, 256, 257, 1000, 4096, 65535, 70000,
+                             4095, 4097, 8191, 8192, 8193, 12289, 16385, 65537, 1023, 1025,
+                             2049, 32769, 4096 * rnd.randint(1, 12) + rnd.choice([-1, 0, 1, 2]),
+                             1024 * rnd.randint(1, 40) + rnd.choice([-1, 1])]) \
                 if i % 3 == 0 else rnd.randint(4, 300)
             b = rnd.randbytes(ln)
             _check_crc(b, viol)
